@@ -313,10 +313,19 @@ class FuncOrder(object):
 
     def key_is_total(self, key, src):
         """The sort key determines the element (ties impossible between distinct elements)."""
-        if not isinstance(key, ast.Lambda) or len(key.args.args) != 1:
+        if isinstance(key, ast.Name):
+            # a named key function of the same module that only returns an expression
+            fi = self.f.module.functions.get(key.id)
+            stmts = [b for b in fi.node.body if not (isinstance(b, ast.Expr) and isinstance(
+                b.value, ast.Constant))] if fi is not None else []
+            if len(stmts) != 1 or not isinstance(stmts[0], ast.Return) or \
+                    stmts[0].value is None or len(fi.node.args.args) != 1:
+                return False
+            p, body = fi.node.args.args[0].arg, stmts[0].value
+        elif isinstance(key, ast.Lambda) and len(key.args.args) == 1:
+            p, body = key.args.args[0].arg, key.body
+        else:
             return False
-        p = key.args.args[0].arg
-        body = key.body
         if isinstance(body, ast.Name) and body.id == p:
             return True
         arity = None
